@@ -159,6 +159,17 @@ func runHist(c *hx.Ctx, w *world, h *Hist, emit bool) {
 	if len(o.ED) > 1 {
 		c.Count("endorseDone:order-dependent")
 	}
+	for _, u := range o.Unsigned {
+		c.Fail("receive:own-signature-not-verified:"+u.Kind,
+			"a "+u.Kind+" message whose own mandatory signature does not verify under the sending peer's key over the digest it carries passed msg.Verify and reached the block pool",
+			h, u, "dropped by the receive loop (msg.Verify error)")
+	}
+	if o.Rejected > 0 {
+		c.Count("receive:verifiable-message-dropped")
+	}
+	for _, op := range h.Ops {
+		c.Count("own-sig:" + op.Kind + ":" + sigClass(h, op))
+	}
 	declared := false
 	q := quorum(h.N)
 	for _, oc := range o.CD {
@@ -179,6 +190,9 @@ func runHist(c *hx.Ctx, w *world, h *Hist, emit bool) {
 		// ORACLE: commit declared without a verifiable quorum.
 		class := "quorum:short-without-known-cause"
 		switch {
+		case len(o.Unsigned) > 0:
+			// a message whose own mandatory signature does not verify was counted: never a listed cause
+			class = "quorum:unsigned-message-counted"
 		case o.Unverif:
 			class = "quorum:unverified:" + o.FirstBad
 		case o.Double && have >= q-1:
@@ -186,7 +200,8 @@ func runHist(c *hx.Ctx, w *world, h *Hist, emit bool) {
 		}
 		c.Count("declared:" + class)
 		c.Fail(class, "commit consensus declared for a proposer without N-(N-1)/3 distinct consensus peers holding a verifiable signature for its proposal",
-			h, map[string]interface{}{"declared_proposer": oc.P, "for_empty": oc.Empty, "valid_signers": have, "commitDone_outcomes": o.CD},
+			h, map[string]interface{}{"declared_proposer": oc.P, "for_empty": oc.Empty, "valid_signers": have, "commitDone_outcomes": o.CD,
+				"receive_results": o.Results, "unsigned_messages_accepted": o.Unsigned},
 			fmt.Sprintf("at least %d valid signers (N=%d)", q, h.N))
 	}
 	if declared || len(o.Commits) > 0 && len(o.ESigs) > 1 {
@@ -277,6 +292,11 @@ func Run(c *hx.Ctx) {
 		hh := h
 		runHist(c, w, &hh, true)
 	}
+	for _, h := range unsignedProbes() {
+		hh := h
+		runHist(c, w, &hh, false)
+	}
+	submitProbes(c, w)
 	// 4. generated histories
 	nh := c.N(700, 7000)
 	for i := 0; i < nh; i++ {
@@ -286,4 +306,34 @@ func Run(c *hx.Ctx) {
 	// 5. getCommitConsensus alone
 	gccCases(c, c.N(400, 4000))
 	c.Note(fmt.Sprintf("real signature verifications performed: %d", w.nver))
+}
+
+// sigClass names the kind of own signature an op carries (for the distribution).
+func sigClass(h *Hist, op Op) string {
+	switch op.Sig.Key {
+	case sigGarbage:
+		return "garbage-65"
+	case sigEmpty:
+		return "empty"
+	case sigNil:
+		return "absent-null"
+	case sigMissing:
+		return "absent-missing"
+	case sigOneByte:
+		return "one-byte"
+	}
+	signer := op.Sender
+	if op.Kind == "proposal" {
+		signer = op.Proposer
+	}
+	if op.Sig.Key < 0 || op.Sig.Key >= len(h.Peers) {
+		return "empty"
+	}
+	if h.Peers[op.Sig.Key] != signer {
+		return "signed-by-another-peer"
+	}
+	if op.Kind != "proposal" && op.Sig.Hash != op.MsgHash || op.Kind == "proposal" && op.Sig.Hash != 0 {
+		return "signed-other-digest"
+	}
+	return "signed"
 }
